@@ -112,6 +112,8 @@ class Ref:
                 return UNK, "?"
             pick = t if cv[1] else f
             kt, kf = K[t], K[f]
+            if t == f or (kt == kf == "I" and R[t] == R[f] and R[t][0] == "I" and -5 <= R[t][1] <= 256):
+                return R[t], kt      # `truev is falsev`: the operand itself is returned (same register; CPython's cached small ints)
             if kt == "list" or kf == "list":
                 if kt == kf == "list" and len(R[t][1]) == len(R[f][1]):
                     return R[pick], "list"
